@@ -20,15 +20,10 @@ Definition restamp (k : trk) (h : N) (c : bool) : trk :=
 Definition confirmed_by (txids : list N) (k : trk) : bool := memN (t_penalty k) txids.
 
 (* k completes in the block of height h: not confirmed by this very block, not marked as reorged,
-   ConfirmedIn x with h - x = IRREVOCABLY_RESOLVED *)
+   ConfirmedIn x with h.saturating_sub(x) = IRREVOCABLY_RESOLVED (N subtraction truncates at 0) *)
 Definition completes (txids : list N) (h : N) (reorg : list (N * N)) (k : trk) : bool :=
   negb (memN (t_penalty k) txids) && negb (mem_uuid (trk_uuid k) reorg) && t_conf k
-  && N.leb (t_height k) h && N.eqb (h - t_height k) IRR.
-
-(* k makes `current_height - h` underflow *)
-Definition underflows (txids : list N) (h : N) (reorg : list (N * N)) (k : trk) : bool :=
-  negb (memN (t_penalty k) txids) && negb (mem_uuid (trk_uuid k) reorg) && t_conf k
-  && N.ltb h (t_height k).
+  && N.eqb (h - t_height k) IRR.
 
 Definition completed_list (txids : list N) (h : N) (t : tower) : list (N * N) :=
   map trk_uuid (filter (completes txids h (reorged t)) (db_trks t)).
@@ -168,24 +163,18 @@ Section CheckConf.
     mem_uuid (trk_uuid k) l = mem_uuid (trk_uuid k) l' -> completes txids h l k = completes txids h l' k.
   Proof. unfold completes. intros ->. reflexivity. Qed.
 
-  Lemma underflows_dep l l' k :
-    mem_uuid (trk_uuid k) l = mem_uuid (trk_uuid k) l' -> underflows txids h l k = underflows txids h l' k.
-  Proof. unfold underflows. intros ->. reflexivity. Qed.
-
   Lemma check_conf_loop_ok snap : forall t comp0,
     NoDup (map trk_uuid snap) ->
     (forall k, In k snap -> find_trk (db_trks t) (trk_uuid k) <> None) ->
-    existsb (underflows txids h (reorged t)) snap = false ->
     check_conf_loop le txids h snap t comp0 =
       Ok (comp0 ++ map trk_uuid (filter (completes txids h (reorged t)) snap))
          (cc_state t h (conf_uuids txids snap)).
   Proof.
-    induction snap as [|k r IH]; intros t comp0 Hnd Hrow Hu.
+    induction snap as [|k r IH]; intros t comp0 Hnd Hrow.
     - cbn [check_conf_loop filter map conf_uuids]. rewrite app_nil_r, cc_state_nil. reflexivity.
     - cbn [map] in Hnd. apply NoDup_cons_iff in Hnd. destruct Hnd as [Hk Hnd].
-      cbn [existsb] in Hu. apply orb_false_iff in Hu. destruct Hu as [Huk Hur].
       cbn [check_conf_loop]. unfold conf_uuids. cbn [filter]. unfold confirmed_by at 1.
-      unfold completes at 1. unfold underflows in Huk.
+      unfold completes at 1.
       destruct (memN (t_penalty k) txids) eqn:Em; cbn [negb andb].
       + destruct (find_trk (db_trks t) (trk_uuid k)) eqn:Ef; [|exfalso; exact (Hrow k (or_introl eq_refl) Ef)].
         rewrite IH.
@@ -196,50 +185,16 @@ Section CheckConf.
         * intros k' Hk'. cbn [db_trks set_reorged]. rewrite find_trk_set_status.
           destruct (find_trk (db_trks t) (trk_uuid k')) eqn:E'; [discriminate|].
           exfalso. exact (Hrow k' (or_intror Hk') E').
-        * cbn [reorged set_reorged]. rewrite <- Hur. apply existsb_ext_in. intros k' Hk'.
-          apply (cc_reorg_ext (underflows txids h) _ _ r); [apply underflows_dep|exact Hk|exact Hk'].
-      + cbn [negb andb] in Huk. fold (conf_uuids txids r).
+      + fold (conf_uuids txids r).
         assert (Hrow' : forall k', In k' r -> find_trk (db_trks t) (trk_uuid k') <> None)
           by (intros k' Hk'; apply Hrow; right; exact Hk').
         destruct (mem_uuid (trk_uuid k) (reorged t)) eqn:Er; cbn [negb andb].
         { apply IH; assumption. }
-        cbn [negb andb] in Huk.
         destruct (t_conf k) eqn:Ec; cbn [andb].
         2:{ apply IH; assumption. }
-        cbn [andb] in Huk. apply N.ltb_ge in Huk.
-        unfold u32_sub. destruct (N.leb_spec (t_height k) h) as [Hle|Hgt]; [|lia]. cbn [andb].
         rewrite IH by assumption. fold IRR.
         destruct (N.eqb (h - t_height k) IRR); [|reflexivity].
         cbn [map]. rewrite <- app_assoc. reflexivity.
-  Qed.
-
-  Lemma check_conf_loop_abort snap : forall t comp0,
-    NoDup (map trk_uuid snap) ->
-    (forall k, In k snap -> find_trk (db_trks t) (trk_uuid k) <> None) ->
-    existsb (underflows txids h (reorged t)) snap = true ->
-    exists t', check_conf_loop le txids h snap t comp0 = Abort S_r_confirmations_underflow t'.
-  Proof.
-    induction snap as [|k r IH]; intros t comp0 Hnd Hrow Hu; [discriminate|].
-    cbn [map] in Hnd. apply NoDup_cons_iff in Hnd. destruct Hnd as [Hk Hnd].
-    cbn [existsb] in Hu. cbn [check_conf_loop]. unfold underflows at 1 in Hu.
-    assert (Hrow' : forall k', In k' r -> find_trk (db_trks t) (trk_uuid k') <> None)
-      by (intros k' Hk'; apply Hrow; right; exact Hk').
-    destruct (memN (t_penalty k) txids) eqn:Em; cbn [negb andb orb] in Hu.
-    - destruct (find_trk (db_trks t) (trk_uuid k)) eqn:Ef; [|exfalso; exact (Hrow k (or_introl eq_refl) Ef)].
-      apply IH.
-      + exact Hnd.
-      + intros k' Hk'. cbn [db_trks set_reorged]. rewrite find_trk_set_status.
-        destruct (find_trk (db_trks t) (trk_uuid k')) eqn:E'; [discriminate|].
-        exfalso. exact (Hrow' k' Hk' E').
-      + cbn [reorged set_reorged]. rewrite <- Hu. apply existsb_ext_in. intros k' Hk'.
-        apply (cc_reorg_ext (underflows txids h) _ _ r); [apply underflows_dep|exact Hk|exact Hk'].
-    - destruct (mem_uuid (trk_uuid k) (reorged t)) eqn:Er; cbn [negb andb orb] in Hu.
-      { apply IH; assumption. }
-      destruct (t_conf k) eqn:Ec; cbn [andb orb] in Hu.
-      2:{ apply IH; assumption. }
-      unfold u32_sub. destruct (N.leb_spec (t_height k) h) as [Hle|Hgt].
-      + apply N.ltb_ge in Hle. rewrite Hle in Hu. cbn [orb] in Hu. apply IH; assumption.
-      + eexists. reflexivity.
   Qed.
 End CheckConf.
 
@@ -271,34 +226,34 @@ Proof.
   apply map_ext_in. intros k Hk. rewrite mem_conf_uuids by assumption. reflexivity.
 Qed.
 
+(* with the snapshot = the table, check_confirmations never aborts (S_r_confirm_update_unwrap needs a
+   snapshot row that is no longer in the table) *)
 Theorem check_conf_loop_spec le txids h t comp0 :
   Inv t ->
-  if existsb (underflows txids h (reorged t)) (db_trks t)
-  then exists t', check_conf_loop le txids h (db_trks t) t comp0 = Abort S_r_confirmations_underflow t'
-  else check_conf_loop le txids h (db_trks t) t comp0 = Ok (comp0 ++ completed_list txids h t) (cc_result txids h t).
+  check_conf_loop le txids h (db_trks t) t comp0 = Ok (comp0 ++ completed_list txids h t) (cc_result txids h t).
 Proof.
   intros HI. pose proof (inv_trks_nodup t HI) as Hnd.
-  destruct (existsb (underflows txids h (reorged t)) (db_trks t)) eqn:Eu.
-  - apply check_conf_loop_abort; [exact Hnd|intros k Hk; apply find_trk_In; exact Hk|exact Eu].
-  - rewrite check_conf_loop_ok; [|exact Hnd|intros k Hk; apply find_trk_In; exact Hk|exact Eu].
-    rewrite cc_state_result by exact Hnd. reflexivity.
+  rewrite check_conf_loop_ok; [|exact Hnd|intros k Hk; apply find_trk_In; exact Hk].
+  rewrite cc_state_result by exact Hnd. reflexivity.
 Qed.
 
 (* readable forms of the pieces *)
 Lemma completes_iff txids h rg k :
   completes txids h rg k = true <->
   memN (t_penalty k) txids = false /\ mem_uuid (trk_uuid k) rg = false /\ t_conf k = true /\
-  t_height k <= h /\ h - t_height k = IRR.
+  t_height k + IRR = h.
 Proof.
-  unfold completes. rewrite !andb_true_iff, !negb_true_iff, N.leb_le, N.eqb_eq. tauto.
+  unfold completes. rewrite !andb_true_iff, !negb_true_iff, N.eqb_eq. pose proof IRR_100. split.
+  - intros [[[A B] C] D]. repeat split; auto. lia.
+  - intros [A [B [C D]]]. repeat split; auto. lia.
 Qed.
 
-Lemma underflows_iff txids h rg k :
-  underflows txids h rg k = true <->
-  memN (t_penalty k) txids = false /\ mem_uuid (trk_uuid k) rg = false /\ t_conf k = true /\ h < t_height k.
-Proof.
-  unfold underflows. rewrite !andb_true_iff, !negb_true_iff, N.ltb_lt. tauto.
-Qed.
+(* the code's reading: current_height.saturating_sub(h) == IRREVOCABLY_RESOLVED *)
+Lemma completes_iff_sub txids h rg k :
+  completes txids h rg k = true <->
+  memN (t_penalty k) txids = false /\ mem_uuid (trk_uuid k) rg = false /\ t_conf k = true /\
+  h - t_height k = IRR.
+Proof. unfold completes. rewrite !andb_true_iff, !negb_true_iff, N.eqb_eq. tauto. Qed.
 
 Lemma in_completed_list txids h t uuid :
   In uuid (completed_list txids h t) <->
@@ -309,26 +264,18 @@ Proof.
   - intros [k [Hk [He Hc]]]. exists k. split; [exact He|apply filter_In; tauto].
 Qed.
 
-(* (e) as an equivalence *)
-Theorem check_conf_loop_aborts_iff le txids h t comp0 :
-  Inv t ->
-  ((exists s t', check_conf_loop le txids h (db_trks t) t comp0 = Abort s t') <->
-   (exists k, In k (db_trks t) /\ memN (t_penalty k) txids = false /\
-              mem_uuid (trk_uuid k) (reorged t) = false /\ t_conf k = true /\ h < t_height k)) /\
-  (forall s t', check_conf_loop le txids h (db_trks t) t comp0 = Abort s t' -> s = S_r_confirmations_underflow).
+(* (e) the only abort of the loop, S_r_confirm_update_unwrap, needs a snapshot row missing from the table *)
+Theorem check_conf_loop_never_aborts le txids h t comp0 s t' :
+  Inv t -> check_conf_loop le txids h (db_trks t) t comp0 <> Abort s t'.
+Proof. intros HI. rewrite (check_conf_loop_spec le txids h t comp0 HI). discriminate. Qed.
+
+Theorem check_conf_loop_abort_site le txids h snap : forall t comp0 s t',
+  check_conf_loop le txids h snap t comp0 = Abort s t' -> s = S_r_confirm_update_unwrap.
 Proof.
-  intros HI. pose proof (check_conf_loop_spec le txids h t comp0 HI) as H.
-  destruct (existsb (underflows txids h (reorged t)) (db_trks t)) eqn:Eu.
-  - destruct H as [t1 H1]. split.
-    + split; [|intros _; eauto]. intros _. apply existsb_exists in Eu. destruct Eu as [k [Hk Hu]].
-      exists k. split; [exact Hk|]. apply underflows_iff. exact Hu.
-    + intros s t' E. rewrite H1 in E. congruence.
-  - split.
-    + split; [intros [s [t' E]]; rewrite H in E; discriminate|].
-      intros [k [Hk Hu]]. exfalso. apply underflows_iff in Hu.
-      assert (existsb (underflows txids h (reorged t)) (db_trks t) = true) by (apply existsb_exists; eauto).
-      congruence.
-    + intros s t' E. rewrite H in E. discriminate.
+  induction snap as [|k r IH]; intros t comp0 s t'; cbn [check_conf_loop]; [discriminate|].
+  destruct (memN (t_penalty k) txids).
+  - destruct (find_trk (db_trks t) (trk_uuid k)); [apply IH|intros E; inversion E; reflexivity].
+  - destruct (mem_uuid (trk_uuid k) (reorged t)); [apply IH|]. destruct (t_conf k); apply IH.
 Qed.
 
 (* ------------------------------------------------------------------------------------------ *)
@@ -979,7 +926,6 @@ Record rbc_stages (sc : script) (t : tower) (b : iblock N) (h : N) (t' : tower)
        (idx : txindex N) (lim : N) (tR t3 t5 : tower) : Prop := {
   rs_index : ti_update (r_index t) b = Some idx;
   rs_lim : u32_sub h RETRY = Some lim;
-  rs_no_underflow : existsb (underflows (keys_of (ib_data b)) h (reorged t)) (db_trks t) = false;
   rs_refund : refund_loop (cc_result (keys_of (ib_data b)) h (set_r_index (set_car_height t h) idx))
                           (completed_list (keys_of (ib_data b)) h t) = Ok tt tR;
   rs_t3 : t3 = set_reorged (db_delete_apps tR (completed_list (keys_of (ib_data b)) h t)) [];
@@ -1027,8 +973,6 @@ Proof.
   pose proof (check_conf_loop_spec le txids h t1 [] HI1) as Hcc.
   change (reorged t1) with (reorged t) in Hcc. change (db_trks t1) with (db_trks t) in Hcc.
   change (db_trks t1) with (db_trks t) in E.
-  destruct (existsb (underflows txids h (reorged t)) (db_trks t)) eqn:Eu.
-  { destruct Hcc as [ta Ha]. rewrite Ha in E. discriminate. }
   rewrite Hcc in E. cbn [bind List.app] in E.
   change (completed_list txids h t1) with (completed_list txids h t) in E.
   set (completed := completed_list txids h t) in *.
@@ -1134,8 +1078,7 @@ Definition fate (txids : list N) (h lim : N) (rg : list (N * N)) (e : N -> cstat
 
 Section Pipeline.
   Context (txids : list N) (h lim : N) (rg0 : list (N * N)) (e : N -> cstatus) (l : list trk).
-  Context (Hnd : NoDup (map trk_uuid l)) (Hlim : lim < h)
-          (Hnu : existsb (underflows txids h rg0) l = false).
+  Context (Hnd : NoDup (map trk_uuid l)) (Hlim : lim < h).
 
   Let completed := map trk_uuid (filter (completes txids h rg0) l).
   Let lA := confirm_rows txids h l.
@@ -1198,10 +1141,7 @@ Section Pipeline.
       by (unfold rej2; apply mem_uuid_filter).
     assert (HfE : find_trk lE u = if mem_uuid u rej1 || mem_uuid u rej2 then None else find_trk lD u)
       by (unfold lE; rewrite find_trk_filter_uuid, mem_uuid_app; reflexivity).
-    assert (Hnuk : underflows txids h rg0 k = false).
-    { destruct (underflows txids h rg0 k) eqn:E; [|reflexivity].
-      assert (existsb (underflows txids h rg0) l = true) by (apply existsb_exists; eauto). congruence. }
-    rewrite HfE, Hr1, Hr2, pl_findD. unfold fate. unfold completes in HfB. unfold underflows in Hnuk. rewrite Hu in *.
+    rewrite HfE, Hr1, Hr2, pl_findD. unfold fate. unfold completes in HfB. rewrite Hu in *.
     destruct (memN (t_penalty k) txids) eqn:Em; cbn [negb andb] in *.
     - (* confirmed by this block *)
       rewrite andb_false_r in Hrg. unfold confirm_one in HfB. rewrite Em in HfB.
@@ -1223,7 +1163,6 @@ Section Pipeline.
         rewrite Hst, HfC. cbn [andb orb option_map]. rewrite restamp_uuid, Hu, Hst. reflexivity.
       + destruct (t_conf k) eqn:Ec; cbn [andb] in *.
         * (* counting confirmations *)
-          apply N.ltb_ge in Hnuk. apply N.leb_le in Hnuk. rewrite Hnuk in HfB. cbn [andb] in HfB.
           destruct (N.eqb (h - t_height k) IRR) eqn:Ei.
           { assert (HfC : find_trk lC u = None) by (rewrite pl_findC, HfB; reflexivity).
             rewrite HfC. cbn [option_map]. match goal with |- (if ?c then _ else _) = _ => destruct c end; reflexivity. }
@@ -1329,7 +1268,7 @@ Theorem r_block_connected_rows le sc t b h t' :
               end.
 Proof.
   intros HI E. destruct (r_block_connected_stages le sc t b h t' HI E) as [idx [lim [tR [t3 [t5 S]]]]].
-  destruct S as [S1 S2 S3 S4 S5 [m [l S6]] S7 S8 S9 S10 S11].
+  destruct S as [S1 S2 S4 S5 [m [l S6]] S7 S8 S9 S10 S11].
   exists lim. split; [exact S2|]. intros u.
   assert (HI2 : Inv (cc_result (keys_of (ib_data b)) h (set_r_index (set_car_height t h) idx))).
   { assert (HI1 : Inv (set_r_index (set_car_height t h) idx)) by (eapply inv_frame; [|exact HI]; repeat split).
@@ -1338,13 +1277,13 @@ Proof.
     pose proof (check_conf_loop_spec le (keys_of (ib_data b)) h _ [] HI1) as Hcc.
     change (reorged (set_r_index (set_car_height t h) idx)) with (reorged t) in Hcc.
     change (db_trks (set_r_index (set_car_height t h) idx)) with (db_trks t) in Hcc.
-    rewrite S3 in Hcc. rewrite Hcc in Hp. exact Hp. }
+    rewrite Hcc in Hp. exact Hp. }
   destruct (refund_loop_spec _ _ _ HI2 S4) as [[g [d EtR]] _].
   destruct (retry_lim h lim S2) as [Hlim _].
   subst tR. subst t3. subst t5. subst t'.
   pose proof (inv_trks_nodup t HI) as Hnd.
   destruct (find_trk (db_trks t) u) as [k|] eqn:Ef.
-  - exact (pipeline_row (keys_of (ib_data b)) h lim (reorged t) (blk_eff sc t h) (db_trks t) Hnd Hlim S3 u k Ef).
+  - exact (pipeline_row (keys_of (ib_data b)) h lim (reorged t) (blk_eff sc t h) (db_trks t) Hnd Hlim u k Ef).
   - exact (pipeline_none (keys_of (ib_data b)) h lim (reorged t) (blk_eff sc t h) (db_trks t) u Ef).
 Qed.
 
@@ -1373,7 +1312,6 @@ Qed.
 Record rbc_facts (sc : script) (t : tower) (b : iblock N) (h : N) (t' : tower) (lim : N) (t5 : tower) : Prop := {
   rf_lim : u32_sub h RETRY = Some lim;
   rf_lim_lt : lim < h;
-  rf_no_underflow : existsb (underflows (keys_of (ib_data b)) h (reorged t)) (db_trks t) = false;
   rf_mem : forall u, aget (gk_users t') u =
                      option_map (credit (refund_total (db_apps t) (completed_list (keys_of (ib_data b)) h t) u))
                                 (aget (gk_users t) u);
@@ -1412,7 +1350,7 @@ Theorem r_block_connected_facts le sc t b h t' :
 Proof.
   intros HI E. destruct (r_block_connected_rows le sc t b h t' HI E) as [lim0 [Hl0 Hrows]].
   destruct (r_block_connected_stages le sc t b h t' HI E) as [idx [lim [tR [t3 [t5 S]]]]].
-  destruct S as [S1 S2 S3 S4 S5 [m [l S6]] S7 S8 S9 S10 S11].
+  destruct S as [S1 S2 S4 S5 [m [l S6]] S7 S8 S9 S10 S11].
   assert (lim0 = lim) by congruence. subst lim0.
   assert (HI2 : Inv (cc_result (keys_of (ib_data b)) h (set_r_index (set_car_height t h) idx))).
   { assert (HI1 : Inv (set_r_index (set_car_height t h) idx)) by (eapply inv_frame; [|exact HI]; repeat split).
@@ -1421,7 +1359,7 @@ Proof.
     pose proof (check_conf_loop_spec le (keys_of (ib_data b)) h _ [] HI1) as Hcc.
     change (reorged (set_r_index (set_car_height t h) idx)) with (reorged t) in Hcc.
     change (db_trks (set_r_index (set_car_height t h) idx)) with (db_trks t) in Hcc.
-    rewrite S3 in Hcc. rewrite Hcc in Hp. exact Hp. }
+    rewrite Hcc in Hp. exact Hp. }
   destruct (refund_loop_spec _ _ _ HI2 S4) as [[g [d EtR]] [Hg [Hd Hex]]].
   destruct (retry_lim h lim S2) as [Hlim _].
   pose proof (inv_trks_nodup t HI) as Hnd.
@@ -1492,7 +1430,7 @@ Theorem completes_iff_100 le sc t b h t' :
   (forall k, In k (db_trks t) ->
      (In (trk_uuid k) (completed_list (keys_of (ib_data b)) h t) <->
       memN (t_penalty k) (keys_of (ib_data b)) = false /\ mem_uuid (trk_uuid k) (reorged t) = false /\
-      t_conf k = true /\ t_height k <= h /\ h - t_height k = IRR)) /\
+      t_conf k = true /\ t_height k + IRR = h)) /\
   (forall u, In u (completed_list (keys_of (ib_data b)) h t) ->
      find_trk (db_trks t') u = None /\ find_app (db_apps t') u = None /\ exists a, find_app (db_apps t) u = Some a) /\
   (forall u, aget (gk_users t') u =
@@ -1509,7 +1447,7 @@ Proof.
     + intros H. exists k. split; [exact Hk|]. split; [reflexivity|]. apply completes_iff. exact H.
   - intros u Hu. destruct (rf_completed_apps _ _ _ _ _ _ _ F u Hu) as [Ha Hn]. split; [|split; assumption].
     rewrite (rf_rows _ _ _ _ _ _ _ F). apply in_completed_list in Hu. destruct Hu as [k [Hk [He Hc]]].
-    subst u. rewrite (find_trk_In_NoDup _ k Hnd Hk). apply completes_iff in Hc. destruct Hc as [C1 [C2 [C3 [C4 C5]]]].
+    subst u. rewrite (find_trk_In_NoDup _ k Hnd Hk). apply completes_iff_sub in Hc. destruct Hc as [C1 [C2 [C3 C5]]].
     unfold fate. rewrite C1, C2, C3, C5, N.eqb_refl. reflexivity.
   - exact (rf_mem _ _ _ _ _ _ _ F).
   - exact (rf_db _ _ _ _ _ _ _ F).
@@ -1667,7 +1605,8 @@ Proof.
   unfold with_carrier. cbn [car_memo set_rpc_log set_car_memo]. congruence.
 Qed.
 
-(* the predicate holds after a normal return, and an abort happens only at a site in S *)
+(* the predicate holds after a normal return, and an abort happens only at a site in S
+   (S was introduced to exclude S_r_confirmations_underflow, a site the repaired code no longer has) *)
 Definition pres2 {A} (P : tower -> Prop) (S : site -> Prop) (r : res A) : Prop :=
   match r with Ok _ t => P t | Abort s _ => S s end.
 
@@ -1680,7 +1619,7 @@ Proof. destruct r; exact (fun H => H). Qed.
 
 Section W.
   Context (P : tower -> Prop) (HW : StableW P).
-  Context (S : site -> Prop) (HSite : forall s, s <> S_r_confirmations_underflow -> S s).
+  Context (S : site -> Prop) (HSite : forall s : site, S s).
 
   Lemma in_mempool_presW sc t tx : P t -> P (snd (in_mempool sc t tx)).
   Proof. intros H. unfold in_mempool. cbn [snd]. eapply (sw_frame P HW); [|exact H]. repeat split. Qed.
@@ -1705,7 +1644,7 @@ Section W.
   Proof.
     intros H. unfold r_handle_breach.
     destruct (ti_get (r_index t) p) as [bh|].
-    - destruct (ti_get_height (r_index t) bh) as [z|] eqn:Ez; cbn [bind pres2]; [|apply HSite; discriminate].
+    - destruct (ti_get_height (r_index t) bh) as [z|] eqn:Ez; cbn [bind pres2]; [|apply HSite].
       cbn [status_accepted]. apply add_tracker_presW; [exact H|].
       intros h Eh. inversion Eh. left. eauto.
     - pose proof (in_mempool_presW sc t p H) as H1.
@@ -1722,7 +1661,7 @@ Section W.
   Lemma breach_uuid_loop_presW sc d us : forall t inv, P t -> pres2 P S (breach_uuid_loop sc d us t inv).
   Proof.
     induction us as [|uuid us IH]; intros t inv H; cbn [breach_uuid_loop]; [exact H|].
-    destruct (find_app (db_apps t) uuid) as [a|]; [|apply HSite; discriminate].
+    destruct (find_app (db_apps t) uuid) as [a|]; [|apply HSite].
     destruct (decrypt (a_blob a) d) as [p|]; [|apply IH; exact H].
     apply pres2_bind; [apply handle_breach_presW; exact H|].
     intros s t1 H1. apply IH. exact H1.
@@ -1738,7 +1677,7 @@ Section W.
   Lemma w_block_connected_presW sc t b h : P t -> pres2 P S (w_block_connected sc t b h).
   Proof.
     intros H. unfold w_block_connected.
-    destruct (ti_update (w_cache t) b) as [c|]; [|apply HSite; discriminate].
+    destruct (ti_update (w_cache t) b) as [c|]; [|apply HSite].
     apply pres2_bind; [apply breach_loop_presW; eapply (sw_frame P HW); [|exact H]; repeat split|].
     intros inv t2 H2. apply pres2_bind.
     - destruct inv; [exact H2|]. unfold gk_delete_appointments. cbn [pres2]. apply (sw_delete P HW). exact H2.
@@ -1759,7 +1698,7 @@ Qed.
 Lemma w_block_connected_users sc t b h t' :
   w_block_connected sc t b h = Ok tt t' -> gk_users t' = gk_users t /\ db_users t' = db_users t.
 Proof.
-  intros E. pose proof (w_block_connected_presW _ (users_stableW (gk_users t) (db_users t)) (fun _ => True) (fun _ _ => I) sc t b h (conj eq_refl eq_refl)) as H.
+  intros E. pose proof (w_block_connected_presW _ (users_stableW (gk_users t) (db_users t)) (fun _ => True) (fun _ => I) sc t b h (conj eq_refl eq_refl)) as H.
   rewrite E in H. exact H.
 Qed.
 
@@ -1837,7 +1776,7 @@ Proof.
       - intros sc0 a x Ha. destruct (send_spec sc0 a x) as [m [l [Es _]]]. rewrite Es. exact Ha.
       - intros a us Ha. exact Ha.
       - intros a k Ha _ _ _. exact Ha. }
-    specialize (Hp HS (fun _ => True) (fun _ _ => I) sc tg (cache_block hash txs) (gk_height t + 1) eq_refl). rewrite Ew in Hp. exact Hp. }
+    specialize (Hp HS (fun _ => True) (fun _ => I) sc tg (cache_block hash txs) (gk_height t + 1) eq_refl). rewrite Ew in Hp. exact Hp. }
   exists out, tw. split; [exact Eo|]. split; [exact HIw|]. split; [congruence|]. split; [exact Er|]. split.
   - intros u. rewrite Hg, Hwg, Hgu. change (gk_users (set_rpc_log t [])) with (gk_users t).
     destruct (memN u out); reflexivity.
@@ -1851,7 +1790,7 @@ Qed.
 Lemma handle_breach_users sc t uuid d p s t' :
   r_handle_breach sc t uuid d p = Ok s t' -> gk_users t' = gk_users t /\ db_users t' = db_users t.
 Proof.
-  intros E. pose proof (handle_breach_presW _ (users_stableW (gk_users t) (db_users t)) (fun _ => True) (fun _ _ => I) sc t uuid d p (conj eq_refl eq_refl)) as H.
+  intros E. pose proof (handle_breach_presW _ (users_stableW (gk_users t) (db_users t)) (fun _ => True) (fun _ => I) sc t uuid d p (conj eq_refl eq_refl)) as H.
   rewrite E in H. exact H.
 Qed.
 
@@ -2330,7 +2269,7 @@ Proof.
 Qed.
 
 (* ------------------------------------------------------------------------------------------ *)
-(* 7. confirmed heights stay on the active chain; `current_height - h` never underflows *)
+(* 7. confirmed heights stay on the active chain *)
 
 (* the part of TxIndex's representation invariant needed here: distinct block hashes, each with
    its entry in tx_in_block (so that remove_disconnected_block always finds the block) *)
@@ -2482,14 +2421,14 @@ Qed.
 
 (* abort sites of the loops the responder runs after check_confirmations *)
 Section Sites.
-  Context (S : site -> Prop) (HSite : forall s, s <> S_r_confirmations_underflow -> S s).
+  Context (S : site -> Prop) (HSite : forall s : site, S s).
 
   Lemma refund_loop_sites us : forall t, pres2 (fun _ => True) S (refund_loop t us).
   Proof.
     induction us as [|u us IH]; intros t; cbn [refund_loop]; [exact I|].
-    destruct (find_app (db_apps t) u) as [a|]; [|apply HSite; discriminate].
-    destruct (gk_get t (a_user a)) as [ui|]; [|apply HSite; discriminate].
-    destruct (u32_add _ _); [apply IH|apply HSite; discriminate].
+    destruct (find_app (db_apps t) u) as [a|]; [|apply HSite].
+    destruct (gk_get t (a_user a)) as [ui|]; [|apply HSite].
+    destruct (u32_add _ _); [apply IH|apply HSite].
   Qed.
 
   Lemma reorged_loop_sites sc h us : forall t rej, pres2 (fun _ => True) S (reorged_loop sc h us t rej).
@@ -2497,7 +2436,7 @@ Section Sites.
     induction us as [|u us IH]; intros t rej; [exact I|]. rewrite reorged_loop_cons.
     destruct (find_trk (db_trks t) u) as [k|]; [|apply IH].
     destruct (send_transaction sc t (t_dispute k)) as [s t1].
-    destruct (is_confirmed s); [apply HSite; discriminate|].
+    destruct (is_confirmed s); [apply HSite|].
     destruct (status_rejected s); [apply IH|].
     destruct (send_transaction sc t1 (t_penalty k)) as [s2 t2]. destruct (status_rejected s2); apply IH.
   Qed.
@@ -2505,7 +2444,7 @@ Section Sites.
   Lemma stale_loop_sites sc h us : forall t rej, pres2 (fun _ => True) S (stale_loop sc h us t rej).
   Proof.
     induction us as [|u us IH]; intros t rej; [exact I|]. rewrite stale_loop_cons.
-    destruct (find_trk (db_trks t) u) as [k|]; [|apply HSite; discriminate].
+    destruct (find_trk (db_trks t) u) as [k|]; [|apply HSite].
     destruct (send_transaction sc t (t_penalty k)) as [s t1]. apply IH.
   Qed.
 
@@ -2517,7 +2456,7 @@ Section Sites.
   Proof.
     intros H. unfold w_store_appointment. destruct (find_app (db_apps t) (app_uuid a)).
     - cbn [pres2]. eapply chain_inv_core; [|exact H]. repeat split.
-    - destruct (amem (db_users t) (a_user a)); [|apply HSite; discriminate].
+    - destruct (amem (db_users t) (a_user a)); [|apply HSite].
       cbn [pres2]. eapply chain_inv_core; [|exact H]. repeat split.
   Qed.
 
@@ -2537,7 +2476,7 @@ Section Sites.
   Proof.
     intros H. unfold w_add_appointment.
     destruct (authenticate t signer) as [u|]; [|exact H].
-    destruct (gk_get t u) as [ui|] eqn:Eg; [|apply HSite; discriminate].
+    destruct (gk_get t u) as [ui|] eqn:Eg; [|apply HSite].
     destruct (N.leb (u_expiry ui) (gk_height t)); [exact H|].
     destruct (find_trk (db_trks t) (loc, u)); [exact H|].
     apply pres2_bind.
@@ -2554,8 +2493,8 @@ Section Sites.
     intros H. unfold gk_add_update_user. destruct (gk_get t u) as [ui|].
     - destruct (u32_add (u_slots ui) (c_slots (cfg t))); cbn [pres2]; [|exact H].
       eapply chain_inv_core; [|exact H]. repeat split.
-    - destruct (u32_add (gk_height t) (c_duration (cfg t))); [|apply HSite; discriminate].
-      destruct (amem (db_users t) u); [apply HSite; discriminate|]. cbn [pres2].
+    - destruct (u32_add (gk_height t) (c_duration (cfg t))); [|apply HSite].
+      destruct (amem (db_users t) u); [apply HSite|]. cbn [pres2].
       eapply chain_inv_core; [|exact H]. repeat split.
   Qed.
 End Sites.
@@ -2567,34 +2506,25 @@ Proof.
   destruct (send_status_cases (set_car_height t h) (snd (script_get sc x))) as [Hs|[Hs|[c Hs]]]; rewrite Hs; discriminate.
 Qed.
 
-Lemma heights_no_underflow txids t :
-  heights_ok t -> existsb (underflows txids (gk_height t) (reorged t)) (db_trks t) = false.
-Proof.
-  intros HJ. destruct (existsb _ _) eqn:E; [|reflexivity]. exfalso.
-  apply existsb_exists in E. destruct E as [k [Hk Hu]]. apply underflows_iff in Hu.
-  destruct Hu as [_ [Hr [Hc Hlt]]]. specialize (HJ k Hk Hc Hr). lia.
-Qed.
-
 Section Sites2.
-  Context (S : site -> Prop) (HSite : forall s, s <> S_r_confirmations_underflow -> S s).
+  Context (S : site -> Prop) (HSite : forall s : site, S s).
 
   Lemma r_block_connected_sites le sc t b h :
-    Inv t -> existsb (underflows (keys_of (ib_data b)) h (reorged t)) (db_trks t) = false ->
-    pres2 (fun _ => True) S (r_block_connected le sc t b h).
+    Inv t -> pres2 (fun _ => True) S (r_block_connected le sc t b h).
   Proof.
-    intros HI Eu. unfold r_block_connected. change (r_index (set_car_height t h)) with (r_index t).
-    destruct (ti_update (r_index t) b) as [idx|]; [|apply HSite; discriminate].
+    intros HI. unfold r_block_connected. change (r_index (set_car_height t h)) with (r_index t).
+    destruct (ti_update (r_index t) b) as [idx|]; [|apply HSite].
     assert (HI1 : Inv (set_r_index (set_car_height t h) idx)) by (eapply inv_frame; [|exact HI]; repeat split).
     pose proof (check_conf_loop_spec le (keys_of (ib_data b)) h _ [] HI1) as Hcc.
     change (reorged (set_r_index (set_car_height t h) idx)) with (reorged t) in Hcc.
     change (db_trks (set_r_index (set_car_height t h) idx)) with (db_trks t) in *.
-    rewrite Eu in Hcc. rewrite Hcc. cbn [bind].
+    rewrite Hcc. cbn [bind].
     apply pres2_bind.
     { destruct ([] ++ completed_list _ _ _); [exact I|]. unfold gk_delete_appointments.
       apply pres2_bind; [apply refund_loop_sites; exact HSite|]. intros; exact I. }
     intros _ t3 _. apply pres2_bind.
     { destruct (reorged t3); [exact I|apply reorged_loop_sites; exact HSite]. }
-    intros rej1 t4 _. destruct (u32_sub h _); [|apply HSite; discriminate].
+    intros rej1 t4 _. destruct (u32_sub h _); [|apply HSite].
     apply pres2_bind; [apply stale_loop_sites; exact HSite|]. intros rej2 t5 _.
     apply pres2_bind; [destruct (rej1 ++ rej2); exact I|]. intros; exact I.
   Qed.
@@ -2605,8 +2535,7 @@ Section Sites2.
     pres2 chain_inv S (r_block_connected le sc t b h).
   Proof.
     intros HI [C1 C2 C3 C4] Hh Htip Hfresh.
-    pose proof (heights_no_underflow (keys_of (ib_data b)) t C1) as Eu. rewrite Hh in Eu.
-    pose proof (r_block_connected_sites le sc t b h HI Eu) as Hsites.
+    pose proof (r_block_connected_sites le sc t b h HI) as Hsites.
     destruct (r_block_connected le sc t b h) as [[] t'|s t''] eqn:E; [|exact Hsites]. cbn [pres2].
     destruct (r_block_connected_facts le sc t b h t' HI E) as [lim [t5 F]].
     assert (HI' : Inv t').
